@@ -28,7 +28,7 @@ FLOORS = {"quick": {"decisions": 30000, "decisions_multi_class": 8000, "equal_st
                        "resets": 60000, "reset_forks": 1000, "first_of_busy_period_stamped": 60000,
                        "fairness_checks": 60000, "kind_WFQ": 6000, "kind_VC": 6000, "many_to_one_cases": 2000}}
 KEYS = tuple(FLOORS["quick"].keys()) + ("back_to_back", "idle_then_arrival", "arrival_at_tx_end",
-                                         "arrival_at_tx_end_after_departure", "worlds_dropped", "arrived_between_pick_and_start")
+                                         "arrival_at_tx_end_after_departure", "worlds_dropped", "arrived_between_pick_and_start", "idle_reset_checks")
 # floors for the situations added with the later rounds of seeded changes (evidence that they were really exercised)
 FLOORS["quick"].update({'arrived_between_pick_and_start': 800, 'mixed_type_class_id_cases': 100})
 FLOORS["thorough"].update({'arrived_between_pick_and_start': 4000, 'mixed_type_class_id_cases': 500})
@@ -242,9 +242,21 @@ def fairness_rule(run, stats, bad):
 def one_case(ctx, case):
     import collections
     stats = collections.Counter({k: 0 for k in KEYS})
-    run = vs.Run(case, counters=False).go()
-    vs.count_features(ctx, run)
+    run = vs.Run(case, counters=False)
     cfg = case["cfg"]
+    if cfg["kind"] == "WFQ":
+        # "V and all F reset to 0 when the scheduler empties": read the public attributes whenever the clock is about to
+        # advance while nothing is waiting or in transmission
+        def idle_reset(env, run=run):
+            if run.in_service is None and not any(run.shadow_n.values()) and run.dep:
+                stats["idle_reset_checks"] += 1
+                s = run.sched
+                if s.vtime != 0 or any(v != 0 for v in s.finish_times.values()):
+                    run.bad("virtual-time-not-reset-when-empty[WFQ]", "the scheduler is empty and the clock advances, but V / some F is not 0",
+                            {"V": s.vtime, "F": {str(c): v for c, v in s.finish_times.items() if v}, "now": env.now})
+        run.net.env.advance_hooks.append(idle_reset)
+    run.go()
+    vs.count_features(ctx, run)
     if not run.viol:
         c12.time_rules(run, stats, run.bad)
     if not run.viol:
